@@ -81,6 +81,8 @@ impl Prop for C15 {
                 let v = if pw { (10u128.pow(k) as i128 + d).max(1) as u128 } else if bits == 0 { 1 } else { (r >> (128 - bits.min(128))).max(1) };
                 Case::Log { ty, v: v.clamp(1, max) as i128 }
             }),
+            // radix 10 must behave exactly like from_str on the whole literal grammar / near misses
+            2 => (vp_text::c06::C06.strategy_for_selftest(), prop_oneof![4 => Just(10u32), 1 => Just(16u32), 1 => 0u32..40]).prop_map(|(s, radix)| Case::Radix { s, radix }),
             1 => (prop_oneof![Just("17.5".to_string()), Just("-0.001".to_string()), Just("ff".to_string()), Just("1e3".to_string()), Just("".to_string()), "[0-9a-f.+-]{0,12}"], prop_oneof![Just(10u32), Just(16u32), Just(2u32), Just(36u32), 0u32..40]).prop_map(|(s, radix)| Case::Radix { s, radix }),
         ]
         .boxed()
